@@ -9,7 +9,9 @@ differentiate are compared.  Histories also contain plain executions and come ba
 earlier (with one-entry, no or all-entries caches on every object); for flat chains a second protocol
 line (`eval`) makes the driver run the evaluation-state model (EChain.exec/lin, mdaExec/mdaLin) and
 the output data of every execution and the data every leaf holds when it computes its Jacobian are
-compared.
+compared.  A size-agnostic stream (`gen_flex_case`, leaves `FlexDisc` defined for vectors of any length)
+linearizes the same process object at input points whose vectors have different lengths: the sizes are data
+(`S` token of the `case` line), zero blocks must have the shape of the current point.
 
 Oracle: forward-mode automatic differentiation with dual numbers over `Fraction`, written from the
 *definition of the function the process computes* (sequential composition, independent parallel
@@ -32,6 +34,7 @@ from harness import common
 from harness.common import F
 from harness.common import Result
 from harness.common import rat
+from harness.c09_flex import expand_spec
 
 PID = "C09"
 
@@ -46,6 +49,10 @@ TRUSTED_EXTRA = (
     "linearization points) is run by the driver on FLAT chains only (`eval` lines); for nested processes the "
     "theorem linearization_points_history is applied level by level (a chain is a Local discipline: "
     "EChain.asDisc_local) and the driver uses the partial derivatives at the current point",
+    "C09: size-agnostic stream: the harness discipline FlexDisc (floats) and the oracle (dual numbers over Fraction) "
+    "both evaluate the expansion harness/c09_flex.expand_spec of a leaf template at the lengths of the current input "
+    "vectors (the definition of the leaf function); the sizes sent to the driver (`S`) are derived from the input point "
+    "through the definition of the composed function, never read from the process under test",
 )
 
 # =========================================================================== process trees
@@ -191,7 +198,16 @@ class Dual:
         return Dual(self.v * o.v, g)
 
 
+def spec_at(spec, env):
+    """The fixed-size specification of a leaf on the data `env`: the specification itself, or, for a
+    size-agnostic leaf (`"flex"`), its template written at the lengths of the input vectors of `env`."""
+    if spec.get("flex"):
+        return expand_spec(spec, {n: len(env[n]) for n, _ in spec["ins"]})
+    return spec
+
+
 def eval_poly(spec, env):
+    spec = spec_at(spec, env)
     out = {}
     for o, comps in spec["poly"].items():
         vec = []
@@ -251,7 +267,7 @@ def truth(case, point):
     res = {}
     for o in node_outs(proc):
         for x in node_ins(proc):
-            res[(o, x)] = [[comp.g.get((x, j), Fraction(0)) for j in range(case["sizes"][x])] for comp in out[o]]
+            res[(o, x)] = [[comp.g.get((x, j), Fraction(0)) for j in range(len(point[x]))] for comp in out[o]]
     return res
 
 
@@ -261,7 +277,7 @@ def leaf_tables(case, point):
     ids = {id(l): i for i, l in enumerate(leaves(case["proc"]))}
 
     def visit(leaf, env):
-        spec = leaf["spec"]
+        spec = spec_at(leaf["spec"], env)
         loc = {n: [Dual(env[n][j].v, {(n, j): Fraction(1)}) for j in range(s)] for n, s in spec["ins"]}
         out = eval_poly(spec, loc)
         for o, _ in spec["outs"]:
@@ -270,6 +286,36 @@ def leaf_tables(case, point):
 
     sem(case["proc"], seeds(case, point), visit)
     return tabs
+
+
+def is_flex(case) -> bool:
+    return any(l["spec"].get("flex") for l in leaves(case["proc"]))
+
+
+def sizes_at(case, point):
+    """Sizes of all the variables at an input point (the sizes are data: lengths of the vectors of the point
+    and of the vectors the disciplines compute from them).  None when a variable would take two different
+    lengths along the evaluation (not an input point of the process as generated here: a summed output,
+    an output of two parallel disciplines, an input that is also an output must have ONE length)."""
+    if not is_flex(case):
+        return dict(case["sizes"])
+    sizes: dict[str, int] = {n: len(point[n]) for n in node_ins(case["proc"])}
+    ok = [True]
+
+    def note(n, k):
+        if sizes.setdefault(n, k) != k:
+            ok[0] = False
+
+    def visit(leaf, env):
+        sp = spec_at(leaf["spec"], env)
+        for n, k in sp["ins"] + sp["outs"]:
+            note(n, int(k))
+
+    try:
+        sem(case["proc"], seeds(case, point), visit)
+    except (KeyError, IndexError, ZeroDivisionError):
+        return None
+    return sizes if ok[0] else None
 
 
 def _rep(fr: Fraction) -> bool:
@@ -288,7 +334,7 @@ def exact_ok(case) -> bool:
         ok = [True]
 
         def visit(leaf, env, ok=ok):
-            spec = leaf["spec"]
+            spec = spec_at(leaf["spec"], env)
             for o, comps in spec["poly"].items():
                 for c in comps:
                     acc = Fraction(c["c"])
@@ -591,6 +637,108 @@ def gen_case(rng: common.Rng, scope: bool = True, top: str | None = None) -> dic
     raise RuntimeError("generator could not produce an exact in-scope case")
 
 
+# ---------------------------------------------------------------------------------- size-agnostic stream
+# "All input points": the grammars of a discipline do not fix the lengths of its vectors; the same process
+# object may be linearized at a point made of vectors of one length, then at a point made of vectors of
+# another length.  The sizes are DATA (every zero block must have the shape given by the current point).
+
+
+def gen_flex_case(rng: common.Rng, top: str | None = None) -> dict[str, Any]:
+    """A case whose leaves are size-agnostic (`harness/c09_flex.py`) and whose history visits input points
+    made of vectors of different lengths (same process object, >= 2 linearizations)."""
+    for _ in range(200):
+        case = gen_case(rng, True, top=top or rng.pick(["C"] * 8 + ["P"] * 3 + ["A"] * 2 + ["M"] * 2))
+        proc = case["proc"]
+        for l in leaves(proc):
+            l["spec"]["flex"] = True
+        ins, outs = node_ins(proc), node_outs(proc)
+        base = {n: case["sizes"][n] for n in ins}
+        while len(case["reqs"]) < 2 or (len(case["reqs"]) < 3 and rng.chance(0.3)):
+            r = copy.deepcopy(case["reqs"][-1])
+            r.pop("pre", None)
+            r.pop("how", None)
+            r["in"] = rng.sample(ins, min(len(ins), rng.pick([1, 1, 2, len(ins)]))) if rng.chance(0.7) else []
+            r["out"] = rng.sample(outs, min(len(outs), rng.pick([1, 1, 2, len(outs)]))) if rng.chance(0.7) else []
+            case["reqs"].append(r)
+
+        def pick_lens(prev):
+            r = rng.random()
+            if r < 0.45:  # all the vectors grow or shrink together
+                d = rng.pick([1, 1, 2, 3, -1, -1, -2])
+                return {n: min(6, max(1, (prev or base)[n] + d)) for n in ins}
+            if r < 0.80:  # independent lengths
+                return {n: rng.pick([1, 2, 2, 3, 3, 4]) for n in ins}
+            lens = dict(prev or base)  # one input vector changes its length
+            lens[rng.pick(ins)] = rng.pick([1, 2, 3, 4])
+            return lens
+
+        def new_point(prev):
+            for _ in range(8):
+                lens = pick_lens(prev)
+                pt = {n: [rat(Fraction(rng.randint(-4, 4), 2)) for _ in range(lens[n])] for n in ins}
+                if sizes_at(case, pt) is not None:
+                    return pt
+            lens = prev or base
+            return {n: [rat(Fraction(rng.randint(-4, 4), 2)) for _ in range(lens[n])] for n in ins}
+
+        visited: list[dict] = []
+        prev = None
+        for k, req in enumerate(case["reqs"]):
+            r = rng.random()
+            if k == 0 and r < 0.5:
+                pt = {n: [rat(Fraction(rng.randint(-4, 4), 2)) for _ in range(base[n])] for n in ins}
+            elif visited and r < 0.15:
+                pt = rng.pick(visited)  # back to a point visited earlier (its vectors have their own lengths)
+            elif prev is not None and r < 0.25:
+                pt = {n: [rat(Fraction(rng.randint(-4, 4), 2)) for _ in range(prev[n])] for n in ins}
+            else:
+                pt = new_point(prev)
+            if "pre" in req:
+                req["pre"] = [dict(rng.pick(visited)) if visited and rng.chance(0.3) else new_point(prev if rng.chance(0.5) else None) for _ in req["pre"]]
+            req["point"] = dict(pt)
+            for q in [*req.get("pre", []), pt]:
+                if q not in visited:
+                    visited.append(q)
+            prev = {n: len(pt[n]) for n in ins}
+        if _valid(case):
+            return case
+    raise RuntimeError("generator could not produce an exact size-agnostic case")
+
+
+def flex_tags(case) -> list[str]:
+    """Histogram keys of a size-agnostic case: how the sizes move along the history, and whether a zero block
+    (independent requested pair) has to be formed with a shape another than at the previous linearization."""
+    tags = ["flex(size-agnostic leaves)"]
+    cum_in: list[str] = []
+    cum_out: list[str] = []
+    last = None
+    ins, outs = node_ins(case["proc"]), node_outs(case["proc"])
+    for req in case["reqs"]:
+        cum_in += [n for n in req["in"] if n not in cum_in]
+        cum_out += [n for n in req["out"] if n not in cum_out]
+        xs, os_ = (ins, outs) if req["all"] else (cum_in, cum_out)
+        if not xs or not os_:
+            continue
+        now = sizes_at(case, req["point"])
+        if last is not None and now != last:
+            tags.append("flex:sizes-change-between-linearizations")
+            if any(now[n] > last[n] for n in now):
+                tags.append("flex:a-vector-grows")
+            if any(now[n] < last[n] for n in now):
+                tags.append("flex:a-vector-shrinks")
+            tr = truth(case, req["point"])
+            for o in os_:
+                for x in xs:
+                    if (now[o], now[x]) != (last[o], last[x]):
+                        zero = all(e == 0 for row in tr[(o, x)] for e in row)
+                        tags.append("flex:requested-zero-block-of-another-shape-than-before" if zero else "flex:requested-nonzero-block-of-another-shape-than-before")
+        for q in req.get("pre", []):
+            if {n: len(v) for n, v in q.items()} != {n: len(v) for n, v in req["point"].items()}:
+                tags.append("flex:plain-execution-at-other-sizes")
+        last = now
+    return sorted(set(tags))
+
+
 # =========================================================================== protocol line
 
 
@@ -620,8 +768,13 @@ def case_line(case, structure=None, alg: str = "new") -> str:
     ids = {id(l): i for i, l in enumerate(leaves(case["proc"]))}
     sizes = ",".join(f"{n}:{case['sizes'][n]}" for n in sorted(case["sizes"]))
     toks = ["case", alg, "V", sizes, "P", *proc_tokens(proc, ids)]
+    flex = is_flex(case)
     for req in case["reqs"]:
         toks += ["R", _names(req["in"]), _names(req["out"]), "1" if req["all"] else "0"]
+        if flex:
+            # the sizes of the variables at THIS request (size-agnostic disciplines: the sizes are data)
+            now = sizes_at(case, req["point"]) or {}
+            toks += ["S", ",".join(f"{n}:{now[n]}" for n in sorted(now))]
         for lid, o, n, m in leaf_tables(case, req["point"]):
             toks += ["T", str(lid), o, n, _mat(m)]
     return " ".join(toks)
@@ -744,6 +897,7 @@ def build(node, made):
     from gemseo.core.chains.chain import MDOChain
     from gemseo.core.chains.parallel_chain import MDOParallelChain
 
+    from harness.c09_disc import FlexDisc
     from harness.c09_disc import PolyDisc
 
     t = node["t"]
@@ -752,7 +906,7 @@ def build(node, made):
         _set_cache(obj, node.get("cache", "SimpleCache"))
         return obj
     if t == "L":
-        d = PolyDisc(node["spec"])
+        d = (FlexDisc if node["spec"].get("flex") else PolyDisc)(node["spec"])
         _set_cache(d, node["spec"].get("cache", "SimpleCache"))
         made[id(node)] = d
         return d
@@ -855,6 +1009,7 @@ def impl_run(case) -> dict[str, Any]:
             res["steps"].append(step)
             continue
         point = {n: np.array([float(Fraction(v)) for v in vals]) for n, vals in req["point"].items()}
+        now = sizes_at(case, req["point"])  # sizes of the variables at this input point
         call = req.get("call", "point")
         how = req.get("how", "names")
         try:
@@ -874,7 +1029,7 @@ def impl_run(case) -> dict[str, Any]:
             if call == "inplace":
                 # the caller keeps ONE dictionary of arrays and updates the arrays in place
                 for n, arr in point.items():
-                    if n in shared:
+                    if n in shared and shared[n].shape == arr.shape:
                         shared[n].flags.writeable = True
                         shared[n][:] = arr
                     else:
@@ -898,9 +1053,9 @@ def impl_run(case) -> dict[str, Any]:
                     c0 = 0
                     jac[o] = {}
                     for x in xs:
-                        jac[o][x] = mat[r0 : r0 + case["sizes"][o], c0 : c0 + case["sizes"][x]].copy()
-                        c0 += case["sizes"][x]
-                    r0 += case["sizes"][o]
+                        jac[o][x] = mat[r0 : r0 + now[o], c0 : c0 + now[x]].copy()
+                        c0 += now[x]
+                    r0 += now[o]
                 if mat.shape != (r0, c0):
                     raise AssertionError(f"adapter Jacobian of shape {mat.shape}, expected {(r0, c0)}")
             else:
@@ -915,7 +1070,7 @@ def impl_run(case) -> dict[str, Any]:
                 except (KeyError, TypeError):
                     blocks[(o, x)] = "missing"
                     continue
-                if b.shape != (case["sizes"][o], case["sizes"][x]) or not np.all(np.isfinite(b)):
+                if b.shape != (now[o], now[x]) or not np.all(np.isfinite(b)):
                     blocks[(o, x)] = f"shape:{b.shape}"
                     continue
                 blocks[(o, x)] = [[F(e) for e in row] for row in b]
@@ -966,7 +1121,10 @@ def oracle(case, run) -> list[tuple[str, str]]:
         if step.get("error") == "E:empty":
             continue
         if "error" in step:
-            bad.append((f"raises-{step['error'][2:]}/{kind}", f"request {k}: linearize raised {step['error']}: {step.get('exc', '')[-300:]}"))
+            exc = step.get("exc", "").strip()
+            last = exc.splitlines()[-1][:220] if exc else ""
+            at = f" [same process object, sizes of the variables at this input point: {sizes_at(case, req['point'])}]" if is_flex(case) else ""
+            bad.append((f"raises-{step['error'][2:]}/{kind}", f"request {k}: linearize raised {step['error']}: {last}{at} | {exc[-300:]}"))
             break
         tr = truth(case, req["point"])
         for o, x in step["pairs"]:
@@ -975,7 +1133,7 @@ def oracle(case, run) -> list[tuple[str, str]]:
             if b == "missing":
                 bad.append((f"missing-block/{kind}", f"request {k}: no block d{o}/d{x} returned"))
             elif isinstance(b, str):
-                bad.append((f"shape/{kind}", f"request {k}: block d{o}/d{x} has {b}, expected ({case['sizes'][o]}, {case['sizes'][x]})"))
+                bad.append((f"shape/{kind}", f"request {k}: block d{o}/d{x} has {b}, expected ({len(want)}, {len(req['point'][x])}) at this input point"))
             elif not (len(b) == len(want) and all(len(r) == len(w) and all(e == f for e, f in zip(r, w)) for r, w in zip(b, want))):
                 zero = all(e == 0 for w in want for e in w)
                 bad.append((
@@ -1071,6 +1229,12 @@ def _valid(case, scope=True) -> bool:
         first = case["reqs"][0]
         if not first["all"] and (not first["in"] or not first["out"]):
             return False
+        if is_flex(case):
+            if not all(l["spec"].get("flex") for l in leaves(proc)):
+                return False
+            for r in case["reqs"]:
+                if any(sizes_at(case, q) is None or any(len(v) < 1 for v in q.values()) for q in [*r.get("pre", []), r["point"]]):
+                    return False
         return exact_ok(case)
     except Exception:  # noqa: BLE001
         return False
@@ -1089,7 +1253,11 @@ def _fix_points(case):
     for l in leaves(case["proc"]):
         used |= {n for n, _ in l["spec"]["ins"]} | {n for n, _ in l["spec"]["outs"]}
     case["sizes"] = {n: k for n, k in case["sizes"].items() if n in used}
+    flex = is_flex(case)
+
     def fix(pt):
+        if flex:  # the lengths of the vectors of a point are data: kept
+            return {n: list(pt[n]) if pt.get(n) else ["0"] * case["sizes"][n] for n in ins}
         return {n: pt.get(n, ["0"] * case["sizes"][n])[: case["sizes"][n]] + ["0"] * max(0, case["sizes"][n] - len(pt.get(n, []))) for n in ins}
 
     for r in case["reqs"]:
@@ -1205,7 +1373,7 @@ def shrink_candidates(case):
             yield c
     # sizes to 1
     for v, sz in case["sizes"].items():
-        if sz > 1:
+        if sz > 1 and not is_flex(case):
             c = copy.deepcopy(case)
             c["sizes"][v] = 1
             for l in leaves(c["proc"]):
@@ -1316,7 +1484,7 @@ def neighbours(case, rng):
         def move(pt, c=c, moved=moved):
             k = json.dumps(pt, sort_keys=True)
             if k not in moved:
-                moved[k] = gen_point(rng, c, node_ins(c["proc"]))
+                moved[k] = {n: [rat(Fraction(rng.randint(-4, 4), 2)) for _ in vals] for n, vals in pt.items()}
             return dict(moved[k])
 
         for q in c["reqs"]:
@@ -1404,6 +1572,8 @@ def fine_key(key: str, small) -> str:
         tags.append("revisit")
     if any(r["all"] for r in small["reqs"]):
         tags.append("compute-all")
+    if is_flex(small) and "flex:sizes-change-between-linearizations" in flex_tags(small):
+        tags.append("sizes-change")
     return key + "|" + ",".join(tags)
 
 
@@ -1452,6 +1622,8 @@ def features(case) -> list[str]:
         f.append("several-points")
     if any(s > 1 for s in case["sizes"].values()):
         f.append("vector-vars")
+    if is_flex(case):
+        f += flex_tags(case)
     return sorted(set(f))
 
 
@@ -1523,7 +1695,7 @@ def check_cases(res: Result, cases, scope: bool, rng) -> None:
                 break
         if not found:
             for _ in range(60):
-                nb = gen_case(rng, True, top=case["proc"]["t"])
+                nb = gen_flex_case(rng, top=case["proc"]["t"]) if is_flex(case) else gen_case(rng, True, top=case["proc"]["t"])
                 tried += 1
                 b2 = oracle(nb, impl_run(nb))
                 if b2:
@@ -1681,8 +1853,8 @@ def mda_adjoint_run(case, variant):
                 except (KeyError, TypeError):
                     bad.append(("missing-block/mdachain-adjoint", f"request {k}: no block d{o}/d{x}"))
                     continue
-                if b.shape != (case["sizes"][o], case["sizes"][x]) or not np.all(np.isfinite(b)):
-                    bad.append(("shape/mdachain-adjoint", f"request {k}: d{o}/d{x} has shape {b.shape}"))
+                if b.shape != (len(want), len(req["point"][x])) or not np.all(np.isfinite(b)):
+                    bad.append(("shape/mdachain-adjoint", f"request {k}: d{o}/d{x} has shape {b.shape}, expected {(len(want), len(req['point'][x]))} at this input point"))
                     continue
                 scale = max([Fraction(1)] + [abs(e) for r in want for e in r])
                 ok = all(abs(F(b[i][j]) - want[i][j]) <= MDA_BOUND * scale for i in range(len(want)) for j in range(len(want[i])))
@@ -1742,7 +1914,9 @@ def run(ctx) -> Result:
         "calls (subsets, compute_all_jacobians, new / same / REVISITED input points, plain execute() calls between "
         "the requests); a case is non-trivial when the process has >= 2 leaf disciplines; distinct by protocol line; "
         "+ exhaustive small scope: every in-scope chain of 3 scalar linear disciplines over 2 inputs (fresh, "
-        "re-written or updated-in-place outputs) and every parallel/additive pair"
+        "re-written or updated-in-place outputs) and every parallel/additive pair; + size-agnostic stream: the same "
+        "trees with leaves defined for vectors of any length, histories of >= 2 linearizations of ONE process object "
+        "at input points whose vectors have different lengths (1-6 components; sizes are data, not part of the object)"
     )
     res.assumptions = [
         "in-scope = chains listed in a valid order (no discipline computes a variable that a STRICTLY earlier one "
@@ -1767,6 +1941,17 @@ def run(ctx) -> Result:
         batch = [gen_case(rng, True) for _ in range(min(60, n - done))]
         check_cases(res, batch, True, rng)
         done += len(batch)
+    # size-agnostic stream: the same process object linearized at input points made of vectors of different
+    # lengths (the sizes are data: zero blocks must be formed from the sizes of the CURRENT point)
+    n_flex = 1200 if ctx.thorough else 100
+    done = 0
+    while done < n_flex and time.time() < ctx.deadline:
+        batch = [gen_flex_case(rng) for _ in range(min(50, n_flex - done))]
+        check_cases(res, batch, True, rng)
+        done += len(batch)
+    res.count("size-agnostic-stream", done)
+    if done < n_flex:
+        res.notes.append(f"deadline reached: {n_flex - done} cases of the size-agnostic stream skipped")
     if True:  # exhaustive small scope (~800 cases, ~20 s): both tiers
         small = enumerate_small()
         n_small = 0
